@@ -51,7 +51,8 @@ XHTML = ('<html xmlns="http://www.w3.org/1999/xhtml" xmlns:xlink="http://www.w3.
          '<a xlink:href="q"><circle/></a></svg><div><b>b</b></div><f:e xmlns:f="urn:x" class="x">t</f:e></body></html>')
 NSMAPS = [None, {'svg': NS_SVG, 'html': NS_XHTML, 'x': 'urn:x'}, {'svg': NS_SVG, 'html': NS_XHTML, 'x': 'urn:x', '': NS_XHTML},
           {'svg': NS_SVG, 'x': 'urn:x', '': 'urn:x'}, {'svg': 'urn:x', 'x': NS_SVG, 'html': NS_XHTML}]
-CUSTOM = {':--al': 'a, :is(p, span):not(.x)'}
+CUSTOM = {':--al': 'a, :is(p, span):not(.x)', ':--cls': '.x, [id], p', ':--two': '[class] > *, :--cls'}
+ALIASES = {':--cls': ':is(.x, [id], p)', ':--two': ':is([class] > *, :is(.x, [id], p))', ':--al': ':is(a, :is(p, span):not(.x))'}
 
 
 # fixed alternatives over stateful pseudo-classes whose evaluation memoises per-document facts: inside one list they are
@@ -175,6 +176,11 @@ def laws(sv, A, B, X, doc, ns, match_doc=None):
         except Exception:  # noqa: BLE001
             continue
         out['forgiving-list'] = out.get('forgiving-list', True) and sj == isa and sw == isa
+    # a custom alias selects what its definition selects, under every outer compound
+    for al, defn in ALIASES.items():
+        for outer in ('*|*', ''):
+            out['alias=definition'] = out.get('alias=definition', True) and S2(outer + al, S(outer + defn)) and \
+                S2(outer + ':not(%s)' % al, S(outer + ':not(%s)' % defn))
     if match_doc is not None:
         import bs4
         sel = '%s, %s' % (A, B)
